@@ -17,7 +17,7 @@ cd "$WT" || exit 2
 build() { (./configure -q >/dev/null 2>&1; make -j12 -C src >/dev/null 2>&1); ls src/.libs/libTMCG.a >/dev/null 2>&1; }
 demo() { # args: tag
   local exe="$WT/demo_$1"
-  g++ -std=c++14 -w -DHAVE_CONFIG_H -I"$WT" -I"$WT/src" -o "$exe" "$SEED/demo.cc" "$WT/src/.libs/libTMCG.a" -lgmp -lgcrypt -lgpg-error >>"$LOG" 2>&1 || return 99
+  g++ -std=c++14 -w -DHAVE_CONFIG_H -I"$WT" -I"$WT/src" -I"$WT/tests" -o "$exe" "$SEED/demo.cc" "$WT/src/.libs/libTMCG.a" -lgmp -lgcrypt -lgpg-error >>"$LOG" 2>&1 || return 99
   timeout 1800 "$exe" >>"$LOG" 2>&1; return $?
 }
 build || { echo "$(basename $SEED): original build FAILED"; exit 2; }
